@@ -234,3 +234,93 @@ def units(tier, seed):
                    "line boundary but that is not a newline"],
             sharded=False, timeout_s=300))
     return us
+
+
+# ---------------------------------------------------------------- PositionMarker: source / rendered position of a marker
+def make_marker(K1, K2):
+    """A marker at arbitrary source and rendered offsets of a file with independent newline layouts, whose WORKING position
+    may have been moved (as the fix loop does): source_position() and templated_position() still report the line/column of
+    its source / rendered offset."""
+    def factory(excluded=frozenset()):
+        tb.len = sym_len
+
+        def harness(c):
+            from symlite.values import fresh_bool
+            n1, ps1, s1 = _nlstr(c, K1, name="n_src")
+            n2 = c.declare("n_tpl", z3.Int("n_tpl"))
+            c.assume(n2 >= 0)
+            ps2, prev = [], -1
+            for i in range(K2):
+                p = c.declare(f"t{i}", z3.Int(f"t{i}"))
+                c.assume(z3.And(p > prev, p < n2))
+                prev = p
+                ps2.append(p)
+            s2 = NLStr(n2, [SymInt(p) for p in ps2], [])
+            tf = TemplatedFile(source_str="", fname="f")
+            tf._source_newlines = list(tb.iter_indices_of_newlines(s1))
+            tf._templated_newlines = list(tb.iter_indices_of_newlines(s2))
+            a, ta = fresh_int(c, "source_offset", 0), fresh_int(c, "rendered_offset", 0)
+            c.assume(a.e <= n1)
+            c.assume(ta.e <= n2)
+            pm = PositionMarker(slice(a, a), slice(ta, ta), tf)
+            if bool(fresh_bool(c, "working_position_moved")):
+                wl, wp = fresh_int(c, "working_line", 1), fresh_int(c, "working_pos", 1)
+                pm = pm.with_working_position(wl, wp)
+                c.witness("working_position_moved")
+            sl, sc = pm.source_position()       # REAL
+            tl, tc = pm.templated_position()    # REAL
+
+            def ref(ps, off):
+                cnt = z3.Sum([z3.If(p < off, 1, 0) for p in ps]) if ps else z3.IntVal(0)
+                last = z3.IntVal(-1)
+                for p in ps:
+                    last = z3.If(p < off, p, last)
+                return 1 + cnt, off - last
+            rl, rc = ref(ps1, a.e)
+            ql, qc = ref(ps2, ta.e)
+            return z3.And(lift(sl) == rl, lift(sc) == rc, lift(tl) == ql, lift(tc) == qc)
+        return harness
+    return factory
+
+
+def replay_marker(K1, K2):
+    def replay(cex):
+        from sqlfluff.core.templaters.base import RawFileSlice, TemplatedFileSlice
+        if "len" in vars(tb):
+            del tb.len
+        n1, n2 = int(cex["n_src"]), int(cex["n_tpl"])
+        ps1 = [int(cex[f"p{i}"]) for i in range(K1)]
+        ps2 = [int(cex[f"t{i}"]) for i in range(K2)]
+        src = "".join("\n" if i in ps1 else "x" for i in range(n1))
+        tpl = "".join("\n" if i in ps2 else "y" for i in range(n2))
+        tf = TemplatedFile(source_str=src, fname="f", templated_str=tpl,
+                           sliced_file=[TemplatedFileSlice("templated", slice(0, n1), slice(0, n2))], raw_sliced=[RawFileSlice(src, "templated", 0)])
+        a, ta = int(cex.get("source_offset", 0)), int(cex.get("rendered_offset", 0))
+        pm = PositionMarker(slice(a, a), slice(ta, ta), tf)
+        moved = ""
+        if cex.get("working_position_moved"):
+            pm = pm.with_working_position(int(cex.get("working_line", 1)), int(cex.get("working_pos", 1)))
+            moved = f" after its working position was set to {pm.working_loc}"
+        exp_s = (1 + src[:a].count("\n"), a - src.rfind("\n", 0, a))
+        exp_t = (1 + tpl[:ta].count("\n"), ta - tpl.rfind("\n", 0, ta))
+        got_s, got_t = tuple(pm.source_position()), tuple(pm.templated_position())
+        if (got_s, got_t) != (exp_s, exp_t):
+            return (f"source={src!r} rendered={tpl!r}: marker at source offset {a} / rendered offset {ta}{moved} reports source {got_s} "
+                    f"(expected {exp_s}) and rendered {got_t} (expected {exp_t})")
+        return None
+    return replay
+
+
+_units_tables = units
+
+
+def units(tier, seed):  # noqa: F811
+    ks = [(1, 0), (1, 2)] if tier == "quick" else [(a, b) for a in range(3) for b in range(3)]
+    return _units_tables(tier, seed) + [Unit(
+        name=f"c31.marker_positions[source K={k1},rendered K={k2}]",
+        functions=["sqlfluff.core.parser.markers.PositionMarker.__post_init__/source_position/templated_position/with_working_position",
+                   "TemplatedFile.get_line_pos_of_char_pos"],
+        bounds={"newlines in source": k1, "newlines in rendering": k2, "offsets": "unbounded", "working position": "as constructed / moved anywhere"},
+        make=make_marker(k1, k2), replay=replay_marker(k1, k2),
+        stubs=["two NLStr texts with independent newline layouts behind a real-constructed TemplatedFile"],
+        witnesses_required=["working_position_moved"], sharded=False, timeout_s=300) for k1, k2 in ks]
